@@ -21,10 +21,14 @@ def _s(x):
         return x
     if isinstance(x, tuple):
         try:
-            return T.show(x)
+            out = T.show(x)
         except Exception:       # pragma: no cover
-            return repr(x)
-    return str(x)
+            out = repr(x)
+    else:
+        out = str(x)
+    if len(out) > 700:
+        out = out[:520] + ' ... ' + out[-160:]
+    return out
 
 
 class Unrecognised(Exception):
